@@ -1550,7 +1550,7 @@ class MimeBox(FullBox):
     def parse(clz, src, parent, options, **kwargs):
         rv = FullBox.parse(src, parent=parent, options=options, **kwargs)
         rv['content_type'] = src.read(rv['size'] - rv['header_size'] - 4)
-        while rv['content_type'][-1] == 0:
+        while rv['content_type'] and rv['content_type'][-1] == 0:
             rv['content_type'] = rv['content_type'][:-1]
         rv['content_type'] = str(rv['content_type'], 'ascii')
         return rv
@@ -2314,9 +2314,8 @@ class HandlerBox(FullBox):
         src.read(12)  # const unsigned int(32)[3] reserved = 0;
         name_len = rv["position"] + rv["size"] - src.tell()
         name_bytes = src.read(name_len)
-        while name_len and name_bytes[-1] == 0:
+        while name_bytes and name_bytes[-1] == 0:
             name_bytes = name_bytes[:-1]
-            name_len -= 1
         rv["name"] = str(name_bytes, 'utf-8')
         return rv
 
